@@ -6,7 +6,7 @@ func init() {
 	register(&Def{
 		ID:          "C15",
 		Technique:   "dominance rules in the handler closure built by Wrap (decode → call → decode), error-constant provenance of the input decoders, closure-capture (snapshot) rule for options, condition table of Check's refusals with a reachability evaluation",
-		Explanation: "NARROW. Decides only: (D1) in the handler Wrap builds, the reflective call is reached exactly on the input decoder's err == nil edge with the decoder's values, once, and the decoder's error is returned without calling; (D2) every error an input decoder returns is the InvalidParams sentinel or built with code InvalidParams; (D3) results flow through an output decoder that returns only the function's own result values; (D4) no closure of a built handler reads the FuncInfo's options at call time (they are fixed at wrap time), and strictness is derived from the option and the parameter type's DisallowUnknownFields method; (D5) Check returns either a FuncInfo or an error, never neither/both; (D6) each documented refusal has an error return governed by its test, and the variadic refusal is reachable for two-parameter functions. (D7) Request.HasParams is exactly 'the raw parameters are non-empty'. (D8) ReportsError is stored from / under the identity test Out(i) == error type. (D9) package-level tables of the handler package are not keyed by a type's name or a function's code pointer; what Check computed in a FuncInfo is written only while it is built (option setters change their own flag only). Also decided: the FuncInfo option setters store the flag into their receiver on every path and return the receiver.",
+		Explanation: "NARROW. Decides only: (D1) in the handler Wrap builds, the reflective call is reached exactly on the input decoder's err == nil edge with the decoder's values, once, and the decoder's error is returned without calling; (D2) every error an input decoder returns is the InvalidParams sentinel or built with code InvalidParams; (D3) results flow through an output decoder that returns only the function's own result values; (D4) no closure of a built handler reads the FuncInfo's options at call time (they are fixed at wrap time), and strictness is derived from the option and the parameter type's DisallowUnknownFields method; (D5) Check returns either a FuncInfo or an error, never neither/both; (D6) each documented refusal has an error return governed by its test, and the variadic refusal is reachable for two-parameter functions. (D7) Request.HasParams is exactly 'the raw parameters are non-empty'. (D8) ReportsError is stored from / under the identity test Out(i) == error type. (D9) package-level tables of the handler package are not keyed by a type's name or a function's code pointer; what Check computed in a FuncInfo is written only while it is built (option setters change their own flag only). Also decided: the FuncInfo option setters store the flag into their receiver on every path and return the receiver. Also decided: UnmarshalParams writes through its target only on the len(params) != 0 edge.",
 		NotDecided:  []string{"that the decoded argument equals encoding/json's for every signature and params", "that Check accepts exactly the documented schemes (only the refusals' presence is decided)", "freedom from reflection panics"},
 		Assumptions: []string{"reflect and encoding/json semantics"},
 		RuleText:    ruleText,
